@@ -333,11 +333,18 @@ class Encoder(object):
 
 
 _ctr = [0]
+_cache = {}      # identical scripts (e.g. the double and long double instantiations yield the same term) are solved once per process
 
 
 def run_solver(script, timeout=60, solver=Z3, workdir=None, tag='q', mem_mb=8000):
     """-> dict(verdict in sat/unsat/unknown/timeout/error, time, output)"""
     h = hashlib.sha1(script.encode()).hexdigest()[:12]
+    ck = (h, solver, int(timeout))
+    if ck in _cache:
+        r = dict(_cache[ck])
+        r['cached'] = True
+        r['time'] = 0.0
+        return r
     _ctr[0] += 1
     path = os.path.join(workdir or '/tmp', '%s-%s-%d-%d.smt2' % (tag, h, os.getpid(), _ctr[0]))
     with open(path, 'w') as fh:
@@ -367,7 +374,10 @@ def run_solver(script, timeout=60, solver=Z3, workdir=None, tag='q', mem_mb=8000
         os.unlink(path)
     except OSError:
         pass
-    return dict(verdict=verdict, time=dt, output=out if verdict in ('error', 'sat') else '', solver=name, hash=h)
+    res = dict(verdict=verdict, time=dt, output=out if verdict in ('error', 'sat') else '', solver=name, hash=h)
+    if verdict in ('sat', 'unsat'):
+        _cache[ck] = res
+    return res
 
 
 def parse_model(out):
